@@ -3,6 +3,7 @@ pub mod c02;
 pub mod c03;
 pub mod c05;
 pub mod c06;
+pub mod c07;
 pub mod c08;
 pub mod c09;
 pub mod c10;
@@ -24,6 +25,7 @@ pub fn sweep_prop(id: &str) -> Option<Box<dyn Prop>> {
         "C17" => Box::new(c03::C17::new()),
         "C05" => Box::new(c05::C05::new()),
         "C06" => Box::new(c06::C06::new()),
+        "C07" => Box::new(c07::C07::new()),
         "C08" => Box::new(c08::C08::new()),
         "C09" => Box::new(c09::C09::new()),
         "C10" => Box::new(c10::C10::new()),
